@@ -118,11 +118,13 @@ def gen_history(seed, long=False):
                 pos += 1        # a begin keeps its immediate first stepping request
             s.insert(min(pos, len(s)), {"inst": s[0]["inst"], "op": "stream_cut", "chunks": rng.choice([1, 2, 3, 4, 6]),
                                         "settings": {} if rng.random() < 0.7 else None})
-    int_specs = rng.choice(["none", "none", "scenario", "begin", "begin_other"]) if not long else rng.choice(["none", "none", "scenario", "begin"])
+    int_specs = rng.choice(["none", "none", "scenario", "begin", "begin_other", "begin_other"]) if not long else rng.choice(["none", "none", "scenario", "begin"])
     if int_specs == "begin_other":
         # the session runs on a grid of its own (run specs in the begin-session settings that differ from the scenario's):
         # a restored session continues on THAT grid
-        rs_ = rng.choice([{"dt": 0.5}, {"starttime": 3.0}, {"starttime": 2.0, "dt": 0.5, "stoptime": 14.0}])
+        rs_ = rng.choice([{"dt": 0.5}, {"starttime": 3.0}, {"starttime": 2.0, "dt": 0.5, "stoptime": 14.0},
+                          # decimal steps: (0.3 - 0.0) / 0.1 is 2.9999999999999996 in floating point
+                          {"starttime": 0.0, "dt": 0.1, "stoptime": 3.0}, {"starttime": 0.0, "dt": 0.2, "stoptime": 6.0}, {"starttime": 2.0, "dt": 0.1, "stoptime": 5.0}])
         for s in streams:
             for o in s:
                 if o["op"] == "begin":
